@@ -14,6 +14,12 @@ import (
 type VerifSession struct {
 	Params bgp.SessionParameters
 	Advs   []*bgp.Advertisement
+	// Rejected, if set, is submitted with Set after every session got its advertisements; the call is
+	// expected to fail (an advertisement that does not validate, not in first position) and must leave
+	// no trace. Afterwards the session named by Resubmit (index, -1 = none) submits its own Advs
+	// again, which regenerates the configuration.
+	Rejected []*bgp.Advertisement
+	Resubmit int
 }
 
 // VerifRender renders the FRR configuration text for the given sessions through the package's own
@@ -25,7 +31,7 @@ func VerifRender(hostname string, bfdProfiles map[string]*metallbconfig.BFDProfi
 	sm := &sessionManager{
 		sessions:     map[string]*session{},
 		bfdProfiles:  []BFDProfile{},
-		reloadConfig: make(chan reloadEvent, 2*len(sessions)+4),
+		reloadConfig: make(chan reloadEvent, 4*len(sessions)+8),
 	}
 	prev := osHostname
 	osHostname = func() (string, error) { return hostname, nil }
@@ -48,6 +54,19 @@ func VerifRender(hostname string, bfdProfiles map[string]*metallbconfig.BFDProfi
 	for i, s := range sessions {
 		if err := created[i].Set(s.Advs...); err != nil {
 			return "", fmt.Sprintf("set:%d", i), err
+		}
+	}
+	for i, s := range sessions {
+		if len(s.Rejected) == 0 {
+			continue
+		}
+		if err := created[i].Set(s.Rejected...); err == nil {
+			return "", fmt.Sprintf("rejected-set-accepted:%d", i), fmt.Errorf("a Set that must fail was accepted")
+		}
+		if k := s.Resubmit; k >= 0 && k < len(sessions) && k != i {
+			if err := created[k].Set(sessions[k].Advs...); err != nil {
+				return "", fmt.Sprintf("set:%d", k), err
+			}
 		}
 	}
 	// what the reloader would have been handed last
